@@ -489,6 +489,15 @@ class ProgGen:
             main_skel += self.skeleton(at - done, fs, 2, True)
             done = at
             idx = j + 1
+            if rng.random() < self.prof.get('p_org_before_include', 0.15):
+                # an origin directly in front of the include: the included file's first line shares the .org line's address
+                tgt = self.next_free_global() + rng.choice([0, 4, 0x10])
+                if tgt <= self.gend - 0x40:
+                    fs['zone'] = 'GLOBAL'
+                    fs['region'] = None
+                    fs['locals'] = []
+                    self.cursor['GLOBAL'] = tgt
+                    main_skel.append([['org', num(tgt), None], {'fidx': 0, 'region': None, 'zone': 'GLOBAL', 'addr': tgt, 'in_cond': 0}])
             main_skel.append([['include', idx, f'inc{idx}.asm'], {'fidx': 0, 'region': fs['region'], 'zone': fs['zone'], 'addr': 0, 'in_cond': 0}])
             ifs = self.new_file_state(idx)
             skels[idx] = self.skeleton(rng.randint(1, 6), ifs, 1, True)
